@@ -366,6 +366,37 @@ func genEngineMoveCase(t *rapid.T) engineMoveCase {
 			}
 			return c
 		}
+	case 5: // a man "moving" onto a man of its own side (the king-takes-rook way of writing castling included)
+		var own []int
+		for sq := 0; sq < 64; sq++ {
+			if pc := p.Sq[sq]; pc != 0 && (pc > 0) == p.White {
+				own = append(own, sq)
+			}
+		}
+		if len(own) >= 2 {
+			a := own[rapid.IntRange(0, len(own)-1).Draw(t, "from")]
+			b := own[rapid.IntRange(0, len(own)-1).Draw(t, "to")]
+			// prefer king onto rook when there is one
+			k := p.KingSq(p.White)
+			if rapid.Bool().Draw(t, "kingfirst") && k >= 0 {
+				a = k
+				for _, sq := range own {
+					if pc := p.Sq[sq]; pc == oracle.Rook || pc == -oracle.Rook {
+						b = sq
+						if rapid.Bool().Draw(t, "thisrook") {
+							break
+						}
+					}
+				}
+			}
+			if a != b {
+				c.Text = oracle.SqName(a) + oracle.SqName(b)
+				if rapid.IntRange(0, 3).Draw(t, "upper") == 0 {
+					c.Text = strings.ToUpper(c.Text)
+				}
+				return c
+			}
+		}
 	case 4: // the opponent's move, or a move from an empty square
 		q := *p
 		q.White = !q.White
